@@ -777,14 +777,32 @@ def rule_defaults(check):
     check.expect(lits == ["abcdefghijklmnopqrstuvwxyz"] and uses_len, R, R + "/alphabet", hir.loc(rs.rec), "lowercase letters, `length` characters", "rnd_string alphabet %s / length use %s" % (lits, uses_len))
     pa = prog.fn("TelemetryVerbosity::parse")
     arms = {}
-    for m in hir.walk(pa.body):
-        if m.get("k") == "Match":
+    # the fallback of the whole parse: `..unwrap_or(V)` / `unwrap_or_else(|| V)` / `map_or(V, ..)` in parse
+    fallback = None
+    for x in hir.walk(pa.body):
+        if hir.is_call(x) and (hir.callee_name(x) or x.get("method")) in ("unwrap_or", "unwrap_or_else", "map_or", "map_or_else") and len(hir.call_args(x)) > 1:
+            d_ = hir.peel(hir.call_args(x)[1])
+            if d_.get("k") == "Closure":
+                d_ = hir.peel(d_["body"])
+            cp_ = (d_.get("res", {}).get("ctor_path") or "")
+            if "TelemetryVerbosity::" in cp_:
+                fallback = cp_.split("::")[-1]
+    for pf_ in prog.flat(pa, 2):
+      if pf_ is not pa and not (pf_.file or "").endswith("telemetry.rs"):
+        continue
+      for m in hir.walk(pf_.body):
+        if m.get("k") == "Match" and any(isinstance(hir.lit_value(hir.peel(a_["pat"].get("e") or a_["pat"].get("expr") or {})), str) or isinstance(hir.pat_variant(a_["pat"]), tuple) for a_ in m["arms"]):
             scr = hir.peel(m["scrut"])
             up = any(hir.is_call(x) and (hir.callee_name(x) or x.get("method")) == "to_uppercase" for x in hir.walk(scr))
             for a in m["arms"]:
                 v = hir.pat_variant(a["pat"])
                 b = hir.peel(a["body"])
-                arms[v[1] if isinstance(v, tuple) else v] = (b.get("res", {}).get("ctor_path") or "").split("::")[-1]
+                if b.get("k") == "Call" and (hir.peel(b["f"]).get("res", {}).get("ctor_path") or "").split("::")[-1] == "Some" and b.get("args"):
+                    b = hir.peel(b["args"][0])  # Some(V): the value, the absent case falls back below
+                val_ = (b.get("res", {}).get("ctor_path") or "").split("::")[-1]
+                if val_ == "None" and fallback:
+                    val_ = fallback
+                arms[v[1] if isinstance(v, tuple) else v] = val_
             check.expect(up, R, R + "/verbosity-case", hir.loc(m), "case-insensitive (to_uppercase)", "verbosity strings are not upper-cased before matching")
     wantv = {"OFF": "Off", "MANDATORY": "Mandatory", "INFORMATION": "Information", "DEBUG": "Debug", "_": "Information"}
     check.expect(arms == wantv, R, R + "/verbosity-map", hir.loc(pa.rec), "verbosity map %s" % arms, "verbosity strings map to %s (documented %s)" % (arms, wantv))
@@ -798,6 +816,16 @@ def rule_defaults(check):
                 d_ = hir.peel(d_["body"])
             if (d_.get("res", {}).get("ctor_path") or "").endswith("TelemetryVerbosity::Information") and hir.local_of(hir.call_args(m_)[0]) and pa.bindings()[hir.local_of(hir.call_args(m_)[0])[0]]["origin"][0] == "param":
                 none_default.append(d_)
+    if not none_default and fallback == "Information":
+        # `optional_value.and_then(..).unwrap_or(Information)`: the chain starts at the optional parameter
+        for x in hir.walk(pa.body):
+            if hir.is_call(x) and (hir.callee_name(x) or x.get("method")) in ("unwrap_or", "unwrap_or_else"):
+                r_ = hir.peel(hir.call_args(x)[0])
+                while r_.get("k") == "MethodCall":
+                    r_ = hir.peel(r_["recv"])
+                lr_ = hir.local_of(r_)
+                if lr_ and pa.bindings()[lr_[0]]["origin"][0] == "param":
+                    none_default.append(x)
     check.expect(len(none_default) >= 1, R, R + "/verbosity-none", hir.loc(pa.rec), "None -> Information", "omitted telemetryVerbosity does not default to Information")
     cm = prog.fn("csi_methods::CsiMethod::new")
     found = False
